@@ -325,7 +325,11 @@ func (to *TraceObserver) doStreaming() spanBatchSenderStatus {
 	log.Debugf("established stream to trace observer endpoint")
 	for {
 		select {
-		case msg := <-to.messages:
+		case msg, ok := <-to.messages:
+			if !ok {
+				// Shutdown timed out and closed the queue.
+				return spanBatchSenderStatus{code: statusShutdown}
+			}
 			log.Debugf("trace observer sending span batch of size %d, %d of %d remaining in queue",
 				msg.count, to.messagesRemainingCapacity, to.QueueSize)
 			if err, status := to.sender.send(encodedSpanBatch(msg.batch)); err != nil {
